@@ -278,6 +278,8 @@ def replay_groups(ck: core.Check, groups, variants_of, procs: int = 6):
 
 
 def generic_replay(rec) -> int:
+    if rec.get("engine") == "subjects-conc":
+        return conc_replay(rec)
     f = judge(rec["scn"], rec["expected"], rec["variant"])
     print(json.dumps(f, default=str)[:3000] if f else "replay: observation allowed by the spec")
     return 1 if f else 0
@@ -373,6 +375,22 @@ def run_kind(pid: str, kind: str, tier: str) -> int:
     ck.note("histories_with_reentrant_emission", sum(1 for g in groups if any(at[1] == 1 and at[2] == 1 for at in g[1][0]["at"])))
     replay_groups(ck, groups, (lambda scn: _variants(scn, tier)))
     ck.nontrivial = sum(1 for g in groups if _nontrivial(*g))
+    # Binding C: adjacent calls of reaction-free histories issued concurrently on two threads (DetSched), judged
+    # against the two sequential histories the specification exported
+    want, bound, per_level = (45, 2, (1, 40, 40)) if tier == "quick" else (600, 3, (1, 80, 120, 60))
+    scen, total = conc_scenarios(lines, kind, want, ck.seed)
+    execs = 0
+    for sc_ in scen:
+        for v in _variants(sc_["scn"], tier)[:1 if tier == "quick" else 2]:
+            k, fails = conc_judge((sc_["scn"], sc_["i"], sc_["allowed"], v, bound, per_level, ck.seed))
+            execs += k
+            for f in fails:
+                ck.fail(f)
+    ck.impl += execs
+    ck.note("concurrent_scenarios", {"driven": len(scen), "available": total, "schedules_executed": execs, "preemption_bound": bound,
+                                     "pairs": sorted({"%s || %s" % tuple(x["pair"]) for x in scen})})
+    if not scen or not execs:
+        raise RuntimeError("no concurrent scenario was driven")
     for g in groups[:: max(1, len(groups) // 5)][:5]:
         ck.sample({"scn": g[0], "allowed": [{k: o[k] for k in ("res", "steps", "logs")} for o in g[1]]})
     ck.rule = ("call histories of subscribe (with / without on_error), unsubscribe, on_next, on_error, on_completed, dispose at "
@@ -387,6 +405,10 @@ def run_kind(pid: str, kind: str, tier: str) -> int:
         "dispose() of the subject from inside a callback is not driven (the statement does not say whether the remaining members of the snapshot still receive the notification)",
         "observer callbacks do not raise (fault dimension belongs to C09)",
         "re-entrant emission is specified as call order (queued); the real depth-first delivery is a known finding",
+        "threads: only a subscribe racing with one emitting call, and (AsyncSubject) on_next racing with on_completed, are driven "
+        "(two logical threads under DetSched, switch points at every shim lock operation and at call-bearing lines of the subject/observer "
+        "modules, preemption bound 2 quick / 3 thorough); the outcome must equal the specification's outcome for one of the two sequential orders",
+        "dispose() from inside a callback: any subset of the observers whose turn has not come may be cut off; whoever is served gets the notification as made at the call",
     ]
     return ck.finish()
 
@@ -881,6 +903,7 @@ def conc_judge(item):
     from harness import fastsched, shims
     scn, i, allowed, variant, bound, per_level, seed = item
     fails = []
+    seen_sig = set()
     n = 0
     with shims.patched(extra=_conc_patches(), only=list(_conc_patches())):
         ex = fastsched.LevelExplorer(bound=bound, per_level=per_level, random_schedules=0, seed=seed)
@@ -895,7 +918,9 @@ def conc_judge(item):
             got = last["got"]
             ok = not got["hung"] and not got["crashed"] and (
                 _conc_same(scn, i, got, allowed[0], False) or _conc_same(scn, i, got, allowed[1], True))
-            if not ok and len(fails) < 1:
+            sig = json.dumps([got["logs"], got["res"], got["hung"]], default=str)
+            if not ok and len(fails) < 4 and sig not in seen_sig:
+                seen_sig.add(sig)
                 exp_kinds = {json.dumps(_terminal_kinds(e["logs"])) for e in allowed}
                 top = scn["top"]
                 pair = [top[i]["c"], top[i + 1]["c"]]
